@@ -1491,17 +1491,30 @@ Definition quiet_step (D : design) (t : tstep) (st : dstate) : bool :=
   | TClk d b => negb (is_edge (d_pos (dom_of D d)) (nth d (s_clk st) false) b)
   | TRst d b => negb (d_async (dom_of D d) && b && negb (nth d (s_rst st) false))
                 || negb (changed (prog_sigs (ds_comb D)) (s_env st) (reset_regs d (ds_regs D) (s_env st)))
+  | TBoth d cb rb =>
+      negb (is_edge (d_pos (dom_of D d)) (nth d (s_clk st) false) cb)
+      && (negb (d_async (dom_of D d) && rb && negb (nth d (s_rst st) false))
+          || negb (changed (prog_sigs (ds_comb D)) (s_env st) (reset_regs d (ds_regs D) (s_env st))))
   end.
 
 Lemma quiet_step_silent bf D t st out : quiet_step D t st = true ->
   fst (dstep_run false bf D t st out) = Cont out.
 Proof.
-  destruct t as [i v|d b|d b]; cbn [quiet_step dstep_run]; intros H.
+  destruct t as [i v|d b|d b|d cb rb]; cbn [quiet_step dstep_run]; intros H.
   - cbn [fst]. unfold after_change. apply negb_true_iff in H. rewrite H. reflexivity.
   - apply negb_true_iff in H. rewrite H. reflexivity.
   - destruct (d_async (dom_of D d) && b && negb (nth d (s_rst st) false)) eqn:E; [|reflexivity].
     cbn [negb orb] in H. cbn [fst]. unfold after_change. apply negb_true_iff in H. rewrite H. reflexivity.
+  - apply andb_true_iff in H. destruct H as [He H]. apply negb_true_iff in He. rewrite He.
+    destruct (d_async (dom_of D d) && rb && negb (nth d (s_rst st) false)) eqn:E; [|reflexivity].
+    cbn [negb orb] in H. cbn [fst]. unfold after_change. apply negb_true_iff in H. rewrite H. reflexivity.
 Qed.
+
+(* clock and reset changed by one command: an active edge runs the process with the NEW reset level *)
+Lemma both_step_edge f7 bf D d cb rb st out :
+  is_edge (d_pos (dom_of D d)) (nth d (s_clk st) false) cb = true ->
+  fst (dstep_run f7 bf D (TBoth d cb rb) st out) = fst (proc_run bf D d rb (s_env st) out).
+Proof. intros H. cbn [dstep_run]. rewrite H. destruct (proc_run bf D d rb (s_env st) out). reflexivity. Qed.
 
 (* an active edge: the statements see the values before the edge; the registers then step from those same values *)
 Lemma edge_step_spec f7 bf D d b st out :
